@@ -84,6 +84,17 @@ func runC02(p *Prog, l *Ledger) {
 									rel++
 								}
 							}
+							// a call of another method of the same listener on the same object gives back whatever that method
+							// gives back (OnSuccess delegating to OnIgnore releases a second time)
+							if c.Static != nil && c.Static != m && c.Recv != nil && c.Static.Signature.Recv() != nil {
+								if d := derefNamed(c.Static.Signature.Recv().Type()); d != nil && types.Identical(d, nt) {
+									if ap := AccessPath(c.Recv); ap.Root == ssa.Value(recv) && len(ap.Sel) == 0 {
+										r2, d2 := c02GiveBack(p, c.Static, tokF[0], gaugeF, 3)
+										rel += r2
+										dec += d2
+									}
+								}
+							}
 						}
 						if d, ok := p.DeltaOf(ins); ok && len(gaugeF) > 0 && sameField(d.Field, gaugeF[0]) && d.Pointee {
 							if d.By == -1 {
@@ -1151,4 +1162,58 @@ func c02ReleasedBins(p *Prog, fn *ssa.Function, fr *frame) []ssa.Value {
 		}
 	})
 	return out
+}
+
+// c02GiveBack: how many times fn (a method of an owning listener) releases the token and decrements the gauge, when
+// that number is the same on every returning path; 100 marks "differs between paths" so that the caller's count fails.
+func c02GiveBack(p *Prog, fn *ssa.Function, tok FieldRef, gauge []FieldRef, depth int) (int, int) {
+	if fn == nil || fn.Blocks == nil || depth <= 0 {
+		return 0, 0
+	}
+	recv := fn.Params[0]
+	first := true
+	relAll, decAll := 0, 0
+	EnumPaths(fn, 20000, func(pa *Path) bool {
+		if !pa.IsReturn() {
+			return true
+		}
+		rel, dec := 0, 0
+		pa.Each(func(step int, ins ssa.Instruction) bool {
+			if call, ok := ins.(*ssa.Call); ok {
+				c := p.CallOf(call)
+				if p.isCoreInvoke(c, "StrategyToken", "Release") {
+					if fr, base, ok := loadedField(strip(c.Recv, false)); ok && sameField(fr, tok) && AccessPath(base).Root == ssa.Value(recv) {
+						rel++
+					}
+				}
+				if c.Static != nil && c.Static != fn && c.Recv != nil && c.Static.Signature.Recv() != nil && types.Identical(c.Static.Signature.Recv().Type(), fn.Signature.Recv().Type()) {
+					if ap := AccessPath(c.Recv); ap.Root == ssa.Value(recv) && len(ap.Sel) == 0 {
+						r2, d2 := c02GiveBack(p, c.Static, tok, gauge, depth-1)
+						rel += r2
+						dec += d2
+					}
+				}
+			}
+			if d, ok := p.DeltaOf(ins); ok && len(gauge) > 0 && sameField(d.Field, gauge[0]) && d.Pointee {
+				if d.By == -1 {
+					dec++
+				} else {
+					dec += 100
+				}
+			}
+			return true
+		})
+		if first {
+			relAll, decAll, first = rel, dec, false
+		} else {
+			if rel != relAll {
+				relAll = 100
+			}
+			if dec != decAll {
+				decAll = 100
+			}
+		}
+		return true
+	})
+	return relAll, decAll
 }
